@@ -512,6 +512,8 @@ func C01Workloads() []harness.Workload {
 		signWorkload("boldyreva-short", 12, 400),
 		signWorkload("boldyreva-long", 12, 400),
 		signWorkload("lindell17", 4, 120),
+		signWorkload("cggmp21", 6, 200),
+		signWorkload("cggmp21-dkg", 0, 8),
 		signWorkload("lindell17-dkg", 1, 24),
 	}
 }
